@@ -37,7 +37,7 @@ mod scan;
 mod scan_vector;
 mod shortest_path;
 pub mod single_row;
-mod sort;
+pub(crate) mod sort;
 mod union;
 mod unwind;
 mod variable_length_expand;
